@@ -102,6 +102,7 @@ fn sequential_differential(iter_seed: u64, r: &mut Rng, rep: &mut ShardReport) {
     let mut sig = Fnv::default();
     let mut lifecycle_events = 0u64;
     let mut touch_of_destroyed = 0u64;
+    let mut detached_reverts = 0u64;
     let mut fail: Option<String> = None;
     let n_blocks = r.range(1, 4) as usize;
     let per_block = case.txs.len().div_ceil(n_blocks);
@@ -222,6 +223,29 @@ fn sequential_differential(iter_seed: u64, r: &mut Rng, rep: &mut ShardReport) {
                     break 'outer;
                 }
             }
+            9 => {
+                // a pre-populated bundle whose reverts were detached (e.g. flushed to a changeset
+                // store) keeps its accounts: later merges must still combine with them
+                ops.push("bundle_state.take_all_reverts()".into());
+                let ra = sa.bundle_state.take_all_reverts();
+                let rb = sb.bundle_state.take_all_reverts();
+                if ra != rb {
+                    fail = Some(format!("after {} ops: take_all_reverts differs from revm", ops.len()));
+                    break 'outer;
+                }
+                detached_reverts += 1;
+            }
+            10 => {
+                let n = r.range(1, 2) as usize;
+                ops.push(format!("bundle_state.take_n_reverts({n})"));
+                let ra = sa.bundle_state.take_n_reverts(n);
+                let rb = sb.bundle_state.take_n_reverts(n);
+                if ra != rb {
+                    fail = Some(format!("after {} ops: take_n_reverts({n}) differs from revm", ops.len()));
+                    break 'outer;
+                }
+                detached_reverts += 1;
+            }
             _ => {}
         }
         // transitions and the accumulated bundle must agree after every operation
@@ -276,6 +300,7 @@ fn sequential_differential(iter_seed: u64, r: &mut Rng, rep: &mut ShardReport) {
     rep.bump("sequential_ops", ops.len() as u64);
     rep.bump("lifecycle_events_destroy_create_emptytouch", lifecycle_events);
     rep.bump("deletions_of_already_destroyed_accounts", touch_of_destroyed);
+    rep.bump("bundle_revert_detachments", detached_reverts);
     if let Some(msg) = fail {
         rep.findings.push(finding("PSTATE", msg, iter_seed, serde_json::json!({"case": case.summary(), "ops": ops})));
         return;
@@ -464,6 +489,8 @@ fn two_blocks(iter_seed: u64, r: &mut Rng, rep: &mut ShardReport) {
     let slots = probe_slots(&case);
     let cfg = cfg_env(&case);
     let with_reverts = r.chance(3, 4);
+    // between the blocks the first block's reverts may be detached from the accumulated bundle
+    let detach = r.chance(1, 3);
     // reference: both blocks on one State, merge after each
     let reference: State<_> = StateBuilder::new().with_bundle_update().with_database_ref(case.db.clone()).build();
     let mut evm = Context::mainnet().with_db(reference).with_cfg(cfg.clone()).with_block(case.block.clone()).build_mainnet();
@@ -482,6 +509,9 @@ fn two_blocks(iter_seed: u64, r: &mut Rng, rep: &mut ShardReport) {
         }
         if i + 1 == split {
             evm.ctx.journaled_state.database.merge_transitions(retention(with_reverts));
+            if detach {
+                let _ = evm.ctx.journaled_state.database.bundle_state.take_all_reverts();
+            }
         }
     }
     let mut reference = evm.ctx.journaled_state.database;
@@ -561,6 +591,10 @@ fn two_blocks(iter_seed: u64, r: &mut Rng, rep: &mut ShardReport) {
         }
         if b == 0 {
             state.merge_transitions(retention(with_reverts));
+            if detach {
+                let _ = state.bundle_state.take_all_reverts();
+                rep.bump("bundle_revert_detachments", 1);
+            }
         }
     }
     db.disarm();
